@@ -401,6 +401,11 @@ def run(ctx):
     from .c11 import rule_bail_out_sites
     rule_bail_out_sites(ctx, mir, rid="R12.7")
 
+    # ------------------------------------------------------------------ R12.9 (= R11.4)
+    from .c11 import rule_flag_independence
+    from ..smimpl import index as _index12
+    rule_flag_independence(ctx, _index12(), mir, rid="R12.9")
+
     ctx.not_decided += ["the prefix relation between the output of a failed run and of the complete run (run-time)"]
     ctx.assumptions += ["values listed in the reviewed non-emptiness table (lexeme raw bytes, validated names) are non-empty for the stated reasons"]
     return ("Who-may-call and dominance rules over every call that hands bytes to the OutputSink or to an output handler "
